@@ -101,6 +101,11 @@ AbortWitness == s.exit = 1006
 CleanExit_impl == CleanExit \/ UnwrapWitness \/ DeadJoinWitness \/ AbortWitness
 TypeOK == s.refs \in 1..5 /\ s.exit \in {-1, 0, 1, 101, 1006}
 DebugThreadAlive == s.d # "dead"
+(* "leaves no thread-blocked zombie behind": when the process ends through the regular path (shutdown + exit, or a closed pipe: main *)
+(* joins the debug server and returns 0) the debug thread has ended - it is not left blocked in accept() or in a session's select.   *)
+(* Only a session thread that is busy inside a step that does not return may be left behind (the deliberate give-up), and a thread  *)
+(* that died earlier has nothing left to end.                                                                                      *)
+ThreadEndsUnlessBusy == (s.m = "done" /\ s.exit = 0) => s.d \in {"ended", "dead", "busy"}
 (* vacuity *)
 NeverPaused == s.mach # "paused"
 NeverBusyAtShutdown == ~(s.d = "busy" /\ s.m = "wait_exit")
